@@ -199,7 +199,12 @@ def ob_tip(cx):
     ib = B.GenericInterBranch(Source, target)
     ib.fetch = lambda stop_revision=None, **k: log.append("fetch")
     op = cx.pick("op", ["update_revisions", "pull", "push"])
-    overwrite = bool(cx.choose("overwrite", 0, 1))
+    # pull / push take False, True or a collection of {"history", "tags"}: only "history" permits dropping revisions
+    ow_arg = cx.pick("overwrite", [False, True, (), ("tags",), ("history",), ("history", "tags")])
+    if op == "update_revisions" and not isinstance(ow_arg, bool):
+        cx.assume(False)
+    overwrite = ow_arg if isinstance(ow_arg, bool) else ("history" in ow_arg)
+    ow_arg = ow_arg if isinstance(ow_arg, bool) else set(ow_arg)
     requested = None
     if op == "push" or cx.choose("explicit_stop", 0, 1):
         # a revision of the source's left-hand history, by position
@@ -212,9 +217,9 @@ def ob_tip(cx):
         if op == "update_revisions":
             ib._update_revisions(requested, overwrite=overwrite)
         elif op == "pull":
-            res = ib._pull(overwrite=overwrite, stop_revision=requested, run_hooks=False)
+            res = ib._pull(overwrite=ow_arg, stop_revision=requested, run_hooks=False)
         else:
-            res = ib._basic_push(overwrite, requested)
+            res = ib._basic_push(ow_arg, requested)
     except E.DivergedBranches:
         outcome = "diverged"
     except E.AppendRevisionsOnlyViolation:
